@@ -175,6 +175,10 @@ enum Blk {
     Deep { chunk: usize, gzip: Option<u32>, prog: Vec<POp>, policy: WakerPolicy, cap: u64, spurious: u8 },
     Random { chunk: usize, gzip: Option<u32>, n: u64, len: (usize, usize), salt: u64 },
     Stress { chunk: usize, gzip: Option<u32>, n: u64, salt: u64 },
+    /// free-running: a long write (thousands of lock acquisitions) while the consumer drops the
+    /// body after a random number of polls, i.e. at an arbitrary instant of the writer's work -
+    /// including while the writer holds the lock
+    StressDrop { chunk: usize, gzip: Option<u32>, n: u64, salt: u64 },
 }
 
 fn c10_blocks(ctx: &Ctx) -> Vec<Blk> {
@@ -332,6 +336,27 @@ fn run_blk(ctx: &Ctx, blk: &Blk, tag: u64, sink: &mut Sink, judge: &dyn Fn(&Sche
                 }
             }
         }
+        Blk::StressDrop { chunk, gzip, n, salt } => {
+            let mut rng = Rng::from_parts(ctx.seed, &[tag, 3, *salt]);
+            for _ in 0..*n {
+                if !sink.admit() {
+                    return;
+                }
+                let c = *chunk as u32;
+                let prog = vec![POp::Write(c * rng.range(200, 3000) as u32), POp::Write(c + 1), POp::Flush, POp::Write(3 * c), POp::Flush];
+                let mut case = SchedCase::new(*chunk, *gzip, prog, *rng.pick(&[WakerPolicy::Same, WakerPolicy::Fresh]));
+                case.mode = Mode::Stress(rng.next());
+                case.spurious = 0;
+                case.sample_hints = false;
+                case.drop_body_after = Some(if rng.chance(1, 4) { rng.below(3) as u32 } else { rng.range(3, 1500) as u32 });
+                if let Some(o) = run_sched(&case) {
+                    let v = judge(&case, &o, sink);
+                    sink.count("stress_runs");
+                    sink.count("stress_runs_with_body_drop_during_long_write");
+                    sink.record(v, Some(o.trace_hash), &|| sched_case_with_obs(&case, &o));
+                }
+            }
+        }
         Blk::Stress { chunk, gzip, n, salt } => {
             let mut rng = Rng::from_parts(ctx.seed, &[tag, 2, *salt]);
             for _ in 0..*n {
@@ -387,7 +412,7 @@ impl Prop for C10 {
         "exploration"
     }
     fn rule(&self, ctx: &Ctx) -> String {
-        format!("executions of the real chunker on two threads under a token-passing scheduler driven by the instrumented mutex (decision points: before every critical section, between unlock and wake, at every Pending: park / spurious re-poll, <= 2 spurious polls per run; waker policy same / fresh-per-poll / alternating). Producer programs over {{write<c, write>=c, flush, wait-until-delivered, abort}} + final drop: ALL schedules of ALL programs of <= {} operations (chunk 2, raw); capped enumeration for chunk sizes 1 and 4096 and the gzip writer{}; seeded random schedules of 3-6-operation programs; free-running stress with injected delays. One evaluation = one schedule; distinct non-trivial = distinct event-trace hashes. Deep backlogs: programs that queue 300..20000 chunks, let the consumer drain them and then publish more / abort, <= 1 preemption. Sequential histories: the C08 op sequences (incl. deep queues and both waker modes) judged for 'Pending, then ready, without the registered waker having fired'",
+        format!("executions of the real chunker on two threads under a token-passing scheduler driven by the instrumented mutex (decision points: before every critical section, between unlock and wake, at every Pending: park / spurious re-poll, <= 2 spurious polls per run; waker policy same / fresh-per-poll / alternating). Producer programs over {{write<c, write>=c, flush, wait-until-delivered, abort}} + final drop: ALL schedules of ALL programs of <= {} operations (chunk 2, raw); capped enumeration for chunk sizes 1 and 4096 and the gzip writer{}; seeded random schedules of 3-6-operation programs; free-running stress with injected delays. One evaluation = one schedule; distinct non-trivial = distinct event-trace hashes. Deep backlogs: programs that queue 300..20000 chunks, let the consumer drain them and then publish more / abort, <= 1 preemption. In every third block the writer is dropped by the unwinding of a panicking producer instead of a plain drop. Sequential histories: the C08 op sequences (incl. deep queues and both waker modes) judged for 'Pending, then ready, without the registered waker having fired'",
             if thorough(ctx) { 3 } else { 2 }, if thorough(ctx) { "; 4-operation programs within 3 preemptions, capped at 4000 schedules each" } else { "" })
     }
     fn n_blocks(&self, ctx: &Ctx) -> usize {
@@ -401,7 +426,14 @@ impl Prop for C10 {
             return;
         }
         let blk = c10_blocks(&ctx)[b].clone();
-        run_blk(&ctx, &blk, 10_000 + b as u64, sink, &c10_judge, &|_, _| {});
+        // every third block ends the writer by unwinding instead of a plain drop
+        let unwind = b % 3 == 2;
+        run_blk(&ctx, &blk, 10_000 + b as u64, sink, &c10_judge, &|case, _| {
+            case.drop_by_unwind = unwind;
+        });
+        if unwind {
+            sink.count("blocks_with_writer_dropped_by_unwinding");
+        }
     }
     fn replay(&self, case: &Value, sink: &mut Sink) {
         let inner = if case.get("case").is_some() { &case["case"] } else { case };
@@ -553,6 +585,9 @@ fn c11_sched_blocks(ctx: &Ctx) -> Vec<Blk> {
     b.push(Blk::EnumDrop { chunk: 4, gzip: None, prog: vec![POp::Write(4 * 1100), POp::Write(5), POp::Flush], drop_after: 0, cap: 4000, bound: 1 });
     b.push(Blk::EnumDrop { chunk: 1, gzip: Some(1), prog: vec![POp::Write(3000), POp::Flush, POp::Write(3000), POp::Flush], drop_after: 0, cap: if thorough(ctx) { 6000 } else { 1500 }, bound: 1 });
     for k in 0..(if thorough(ctx) { 32 } else { 8 }) {
+        b.push(Blk::StressDrop { chunk: [1usize, 2, 1, 7][k % 4], gzip: if k % 8 == 7 { Some(1) } else { None }, n: if thorough(ctx) { 600 } else { 150 }, salt: 3000 + k as u64 });
+    }
+    for k in 0..(if thorough(ctx) { 32 } else { 8 }) {
         b.push(Blk::Random { chunk: [2usize, 1, 4096][k % 3], gzip: if k % 4 == 3 { Some(1) } else { None }, n: if thorough(ctx) { 1500 } else { 250 }, len: (2, 6), salt: 1000 + k as u64 });
         b.push(Blk::Stress { chunk: [2usize, 1, 4096][k % 3], gzip: if k % 4 == 3 { Some(6) } else { None }, n: if thorough(ctx) { 300 } else { 50 }, salt: 2000 + k as u64 });
     }
@@ -567,7 +602,7 @@ impl Prop for C11 {
         "fault_enumeration"
     }
     fn rule(&self, ctx: &Ctx) -> String {
-        format!("fault = abort or body drop. (1) sequential, exhaustive: every op sequence of length 0..={} over the write/write_all/flush/poll alphabet of C08 plus two write_vectored calls, for chunk sizes {{1,2,3,4,7}}, the fault inserted at every position, followed by write(1), flush, write(c), poll-until-pending; raw and gzip levels 1 and 6. (2) interleaved: every producer program of <= {} operations containing abort under the C10 scheduler (all schedules up to a cap), random programs with the consumer dropping the body after k polls, free-running stress. (3) memory: >= 1 MiB queued, body dropped, live heap of the thread (counting allocator) must fall by >= 90% after one writer operation and stay bounded over 1000 further chunk writes. Non-trivial = distinct history/schedule containing the fault and judged",
+        format!("fault = abort or body drop. (1) sequential, exhaustive: every op sequence of length 0..={} over the write/write_all/flush/poll alphabet of C08 plus two write_vectored calls, for chunk sizes {{1,2,3,4,7}}, the fault inserted at every position, followed by write(1), flush, write(c), poll-until-pending; raw and gzip levels 1 and 6. (2) interleaved: every producer program of <= {} operations containing abort under the C10 scheduler (all schedules up to a cap), random programs with the consumer dropping the body after k polls, free-running stress incl. long writes (200 .. 3000 chunks) during which the consumer thread drops the body at an arbitrary instant. (3) memory: >= 1 MiB queued, body dropped, live heap of the thread (counting allocator) must fall by >= 90% after one writer operation and stay bounded over 1000 further chunk writes. Non-trivial = distinct history/schedule containing the fault and judged",
             if thorough(ctx) { 4 } else { 3 }, if thorough(ctx) { 3 } else { 2 })
     }
     fn n_blocks(&self, ctx: &Ctx) -> usize {
@@ -625,7 +660,7 @@ impl Prop for C11 {
         }
     }
     fn floors(&self, _: &Ctx) -> Vec<(&'static str, u64)> {
-        vec![("abort_histories", 1000), ("body_drop_histories", 1000), ("abort_schedules", 1000), ("body_drop_schedules", 1000), ("body_drop_enumerated_schedules", 1000), ("memory_release_checked", 3), ("writer_told_body_gone", 1000)]
+        vec![("abort_histories", 1000), ("body_drop_histories", 1000), ("abort_schedules", 1000), ("body_drop_schedules", 1000), ("body_drop_enumerated_schedules", 1000), ("memory_release_checked", 3), ("writer_told_body_gone", 1000), ("stress_runs_with_body_drop_during_long_write", 100)]
     }
     fn assumptions(&self) -> Vec<String> {
         vec![
